@@ -1077,3 +1077,46 @@ func RunEmptyTableGate(w *World, r *Report) {
 		r.OK("emptygate", key, w.Pos(rd.Pos()), "the glyf table may be empty")
 	}
 }
+
+// RunTimeCarry: the creation and modification time of a font are written as
+// they are. Font.makeHead stores f.CreationTime and f.ModificationTime into
+// the head table without looking at them; a "repair" of implausible values
+// (modified before created) changes what is read back.
+func RunTimeCarry(w *World, r *Report) {
+	r.Rule("timecarry: in (*sfnt.Font).makeHead the values stored into the fields Created and Modified of head.Info are plain loads of the receiver's CreationTime and ModificationTime (no selection, no call): timestamps come back as they were given")
+	fn := w.Func("(*sfnt.Font).makeHead")
+	if fn == nil {
+		r.Fatal("(*sfnt.Font).makeHead does not resolve")
+		return
+	}
+	want := map[string]string{"Created": "CreationTime", "Modified": "ModificationTime"}
+	seen := map[string]bool{}
+	for _, b := range fn.Blocks {
+		for _, in := range b.Instrs {
+			st, ok := in.(*ssa.Store)
+			if !ok {
+				continue
+			}
+			f := fieldName(st.Addr)
+			src, isT := want[f]
+			if !isT {
+				continue
+			}
+			seen[f] = true
+			key := r.MkKey("timecarry", fnName(fn), "field "+f)
+			ld, ok := st.Val.(*ssa.UnOp)
+			if ok && ld.Op == token.MUL && fieldName(ld.X) == src {
+				if fa, ok := ld.X.(*ssa.FieldAddr); ok && fa.X == ssa.Value(fn.Params[0]) {
+					r.OK("timecarry", key, w.Pos(st.Pos()), "stored as given")
+					continue
+				}
+			}
+			r.Fail("timecarry", key, w.Pos(st.Pos()), "head."+f+" is not a plain copy of the font's "+src+": the writer adjusts the timestamp, so a font (or a file) with the original value does not come back unchanged", nil)
+		}
+	}
+	for f := range want {
+		if !seen[f] {
+			r.Fail("timecarry", r.MkKey("timecarry", fnName(fn), "field "+f), w.Pos(fn.Pos()), "no store into head.Info."+f+" found in makeHead", nil)
+		}
+	}
+}
